@@ -47,7 +47,8 @@ func (t *c14Mem) SetKey(k, v string) error { t.m[k] = v; return nil }
 
 // base identities (already in PRECIS UsernameCaseMapped form)
 var c14Bases = []string{"alice", "bob@example.org", "üser", "full", "alias-a", "alias-b", "legacy-alice", "legacy-bob@example.org", "nobody",
-	"postmaster"} // a valid address without a domain part (address.Split special-cases it)
+	"postmaster", // a valid address without a domain part (address.Split special-cases it)
+	"xlegacy-alice"} // merely contains a name the regexp map matches (the map matches whole names by default)
 
 // spelling forms: 0 canonical, 1 upper case, 2 NFD, 3 fullwidth (ASCII letters only), 4 mixed case
 func c14Spell(base string, form int) string {
@@ -109,7 +110,7 @@ func c14Gen(t *rapid.T) c14Scenario {
 	for i := 0; i < n; i++ {
 		op := c14Op{
 			Kind: rapid.SampledFrom([]string{"create", "create", "setpw", "delete", "plain", "plain", "plain", "login", "login", "login"}).Draw(t, "op"),
-			User: rapid.SampledFrom([]int{0, 0, 0, 1, 1, 2, 3, 4, 5, 6, 7, 8, 9, 9}).Draw(t, "user"),
+			User: rapid.SampledFrom([]int{0, 0, 0, 1, 1, 2, 3, 4, 5, 6, 7, 8, 9, 9, 10, 10}).Draw(t, "user"),
 			Form: rapid.SampledFrom([]int{0, 0, 0, 1, 2, 3, 4}).Draw(t, "form"),
 			Pw:   rapid.SampledFrom([]int{0, 0, 0, 1, 2, 3, 3, 4, 5, 6, 7, 8, 8, 9, 10}).Draw(t, "pw"),
 		}
@@ -125,7 +126,11 @@ func c14Gen(t *rapid.T) c14Scenario {
 }
 
 func c14SASL(mech string, s *auth.SASLAuth, user, pw, authzid string) (ok bool, identity string, err error) {
-	srv := s.CreateSASL(mech, &net.TCPAddr{IP: net.IPv4(127, 0, 0, 1)}, func(id string, _ auth.ContextData) error {
+	real := mech
+	if mech == "LOGIN+IR" {
+		real = sasl.Login
+	}
+	srv := s.CreateSASL(real, &net.TCPAddr{IP: net.IPv4(127, 0, 0, 1)}, func(id string, _ auth.ContextData) error {
 		ok, identity = true, id
 		return nil
 	})
@@ -133,6 +138,15 @@ func c14SASL(mech string, s *auth.SASLAuth, user, pw, authzid string) (ok bool, 
 	switch mech {
 	case sasl.Plain:
 		_, done, err = srv.Next([]byte(authzid + "\x00" + user + "\x00" + pw))
+	case "LOGIN+IR":
+		// the user name arrives as the initial response of the AUTH command; one more response (the password) follows
+		if _, done, err = srv.Next([]byte(user)); err != nil || done {
+			if err == nil {
+				err = fmt.Errorf("exchange finished before the password was asked for")
+			}
+			return false, "", err
+		}
+		_, done, err = srv.Next([]byte(pw))
 	default:
 		if _, _, err = srv.Next(nil); err != nil {
 			return false, "", err
@@ -278,6 +292,9 @@ func c14Run(sc c14Scenario) (vs []ev.V) {
 				other := sasl.Login
 				if op.Kind == "login" {
 					other = sasl.Plain
+				}
+				if ok3, id3, _ := c14SASL("LOGIN+IR", s, user, pw, ""); ok3 != ok || (ok && id3 != id && op.Kind == "login") {
+					vs = append(vs, ev.Vf("auth:login-with-initial-response-differs:map="+sc.Map, "%s: %s says %v (identity %q), LOGIN with the user name as initial response says %v (identity %q)", where, mech, ok, id, ok3, id3))
 				}
 				ok2, id2, _ := c14SASL(other, s, user, pw, "")
 				if ok2 != ok {
